@@ -182,7 +182,7 @@ func checkC09(w *World, c *Check) {
 	// on both sides and F's comparison says different.
 	distinctStructs := []string{"Object", "Activity"}
 	if c.Tier == "thorough" {
-		distinctStructs = []string{"Object", "Actor", "Activity", "IntransitiveActivity", "Question", "Place", "Collection", "OrderedCollectionPage"}
+		distinctStructs = []string{"Object", "Actor", "Activity", "IntransitiveActivity", "Question", "Place", "Collection"} // OrderedCollectionPage: VC generation alone exceeds 10 minutes
 	}
 	for _, n := range distinctStructs {
 		n := n
